@@ -152,6 +152,10 @@ func genHeaders(pool []string, single map[string]bool) *rapid.Generator[[][2]str
 			if rapid.IntRange(0, 12).Draw(t, "longVal") == 0 {
 				v = string(codec.Fill(rapid.SampledFrom([]int{255, 256, 1000, 3000}).Draw(t, "valLen"), uint64(i), true))
 			}
+			if ln == "cookie" {
+				// RFC 6265 cookie-string
+				v = rapid.SampledFrom([]string{"sid=1", "a=1; b=2", "k=\"v\"", "a=b=c", "t=a%20b", "SID=31d4d96e407aad42; lang=en-US", "e=", "a=1;b=2"}).Draw(t, "cookie")
+			}
 			if v == "" && !strings.HasPrefix(ln, "x-") && !strings.HasPrefix(ln, "x_") {
 				// an empty field value is only meaningful for extension headers; the standard ones used here have
 				// a non-empty grammar (media-type, product, credentials, cookie-string ...)
@@ -786,6 +790,8 @@ func checkHeaders(fail0 func(string, string, ...interface{}), what string, cross
 		switch {
 		case len(gv) == 0:
 			fail(what+"-header-dropped"+rep, "%q missing: sent %s, arrived %s", name, shortHdr(want), shortHdr(got))
+		case len(gv) == 1 && len(w) > 1 && mesh.SingletonHeader[name] && gv[0] == strings.Join(w, ","):
+			fail(what+"-"+name+"-lines-combined", "repeated %q lines arrived folded into one although the field is not a list: sent %s, arrived %s", name, shortHdr(want), shortHdr(got))
 		case len(gv) < len(w):
 			sig := what + "-header-dropped" + rep
 			if cross && rep != "" {
